@@ -455,6 +455,7 @@ type FuncContract struct {
 	Trusted   bool // assumed contract (body not verified)
 	Inline    bool // force inlining
 	NoBounds  bool
+	NoFrame   bool
 	Pure      bool
 	File      string
 	Opaque    bool
@@ -498,7 +499,7 @@ type Contracts struct {
 	Assume []string // textual list of assumed contracts for evidence
 }
 
-var kwRe = regexp.MustCompile(`^(func|iface|requires|ensures|modifies|loop|pred|pure|ghostset|ghost|trusted|inline|props|nobounds|free|mode|opaque)\b`)
+var kwRe = regexp.MustCompile(`^(func|iface|requires|ensures|modifies|loop|pred|pure|ghostset|ghost|trusted|inline|props|nobounds|noframe|free|mode|opaque)\b`)
 
 func loadContracts(root string, pkgDirs map[string]string) (*Contracts, error) {
 	cs := &Contracts{Funcs: map[string]*FuncContract{}, Pures: map[string]*PureFunc{}}
@@ -595,6 +596,8 @@ func (cs *Contracts) parseFile(pkgPath, fn, data string) error {
 			cur.Opaque = true
 		case "nobounds":
 			cur.NoBounds = true
+		case "noframe":
+			cur.NoFrame = true
 		case "mode":
 			cur.Mode = rest
 		case "props":
